@@ -99,6 +99,29 @@ class TupleV(V):
         return 'TupleV(%r)' % (self.items,)
 
 
+class NamedTupleV(TupleV):
+    """an instance of a collections.namedtuple class: a tuple whose items also answer to field names"""
+    __slots__ = ('cls',)
+
+    def __init__(self, cls, items):
+        TupleV.__init__(self, items)
+        self.cls = cls
+
+    def __repr__(self):
+        return '%s(%s)' % (self.cls.tname, ', '.join('%s=%s' % (f, _prov(x)) for f, x in zip(self.cls.fields, self.items)))
+
+
+class NTClassV(V):
+    """the class object made by collections.namedtuple(name, fields[, defaults=...])"""
+    __slots__ = ('tname', 'fields', 'defaults')
+
+    def __init__(self, tname, fields, defaults=()):
+        self.tname, self.fields, self.defaults = tname, list(fields), list(defaults)
+
+    def __repr__(self):
+        return '<namedtuple class %s>' % self.tname
+
+
 class DictV(V):
     __slots__ = ('items',)
 
@@ -512,6 +535,8 @@ class Interp:
             return self.call_function(f.func, list(f.args) + list(args), kw, node)
         if isinstance(f, TypeV):
             return self.construct(f, args, kwargs, node)
+        if isinstance(f, NTClassV):
+            return self._make_namedtuple(f, args, kwargs, node)
         if isinstance(f, Sym):
             return Sym('%s(%s)' % (f.prov, ','.join(_prov(a) for a in args)))
         if not isinstance(f, FuncV):
@@ -1047,6 +1072,22 @@ class Interp:
                         return ca_[1]
                     break
             return Sym('%s.%s' % (obj.name, attr))
+        if isinstance(obj, NamedTupleV):
+            if attr in obj.cls.fields:
+                return obj.items[obj.cls.fields.index(attr)]
+            if attr in ('_replace', '_asdict', 'count', 'index'):
+                return BoundV(obj, attr)
+            if attr == '_fields':
+                return TupleV([Const(x) for x in obj.cls.fields])
+            raise Raised('AttributeError: %s.%s' % (obj.cls.tname, attr), getattr(n, 'lineno', 0))
+        if isinstance(obj, NTClassV):
+            if attr == '_fields':
+                return TupleV([Const(x) for x in obj.fields])
+            if attr in ('__name__', '__qualname__'):
+                return Const(obj.tname)
+            if attr == '_make':
+                return BoundV(obj, attr)
+            return Sym('%s.%s' % (obj.tname, attr))
         if isinstance(obj, CtxV):
             if attr == 'multiline_strategy':
                 return obj.strategy
@@ -1449,6 +1490,30 @@ class Interp:
             return True if all(k is True for k in ks) else None
         if (isinstance(l, ListV) and isinstance(r, TupleV)) or (isinstance(l, TupleV) and isinstance(r, ListV)):
             return False
+        if isinstance(l, DictV) and isinstance(r, DictV):
+            if len(l.items) != len(r.items):
+                return False
+            unknown = False
+            for k_, v_ in l.items:
+                other = r.get(k_)
+                if other is None:
+                    # the key may be present under an element of unknown equality
+                    if any(self._known_eq(k_, k2_) is None for k2_, _ in r.items):
+                        return None
+                    return False
+                e_ = self._known_eq(v_, other)
+                if e_ is False:
+                    return False
+                unknown = unknown or e_ is None
+            return None if unknown else True
+        if isinstance(l, SetV) and isinstance(r, SetV):
+            if len(l.items) != len(r.items):
+                return False
+            for x_ in l.items:
+                ks_ = [self._known_eq(x_, y_) for y_ in r.items]
+                if not any(k_ is True for k_ in ks_):
+                    return None if any(k_ is None for k_ in ks_) else False
+            return True
         if isinstance(l, TypeV) and isinstance(r, TypeV):
             return l.name == r.name
         if isinstance(l, PartialV) or isinstance(r, PartialV):
@@ -1655,7 +1720,7 @@ class Interp:
             return True         # an iterator object (generator, zip, map ...) is truthy whether or not anything is left in it
         if isinstance(v, (ListV, TupleV, SetV, DictV)):
             return len(v.items) > 0
-        if isinstance(v, (DocV, CtxV, FuncV, Prim, TypeV, AnnotV, BoundV, ObjV, PartialV, ExcV, IterV, OpaqueV, CycleV)):
+        if isinstance(v, (DocV, CtxV, FuncV, Prim, TypeV, AnnotV, BoundV, ObjV, PartialV, ExcV, IterV, OpaqueV, CycleV, NTClassV)):
             return True
         if isinstance(v, SymStr):
             if v.nonempty is True:
@@ -1701,6 +1766,15 @@ class Interp:
             r = hook(self, obj, args, kwargs, node)
             if r is not NotImplemented:
                 return r
+        if isinstance(obj, NamedTupleV) and name == '_replace':
+            bad_ = [k_ for k_ in kwargs if k_ not in obj.cls.fields]
+            if bad_ or args:
+                raise Raised('ValueError: Got unexpected field names: %r' % bad_, getattr(node, 'lineno', 0))
+            return NamedTupleV(obj.cls, [kwargs.get(f_, x_) for f_, x_ in zip(obj.cls.fields, obj.items)])
+        if isinstance(obj, NamedTupleV) and name == '_asdict':
+            return DictV([(Const(f_), x_) for f_, x_ in zip(obj.cls.fields, obj.items)])
+        if isinstance(obj, NTClassV) and name == '_make' and len(args) == 1:
+            return self._make_namedtuple(obj, self.iterate(args[0], node), {}, node)
         if isinstance(obj, Sym) and obj.typ == 'lock':
             if name == 'acquire':
                 return TRUE
@@ -1964,6 +2038,37 @@ class Interp:
                 lin_.append(x)
         return list(reversed(lin_))
 
+    def _make_namedtuple(self, cls, args, kwargs, node):
+        n_ = len(cls.fields)
+        if len(args) > n_:
+            raise Raised('TypeError: %s() takes %d positional arguments but %d were given' % (cls.tname, n_, len(args)), getattr(node, 'lineno', 0))
+        vals = dict(zip(cls.fields, args))
+        for k_, v_ in kwargs.items():
+            if k_ not in cls.fields or k_ in vals:
+                raise Raised('TypeError: %s() got an unexpected or repeated keyword argument %r' % (cls.tname, k_), getattr(node, 'lineno', 0))
+            vals[k_] = v_
+        first_default = n_ - len(cls.defaults)
+        for i_, f_ in enumerate(cls.fields):
+            if f_ not in vals:
+                if i_ >= first_default:
+                    vals[f_] = cls.defaults[i_ - first_default]
+                else:
+                    raise Raised('TypeError: %s() missing required argument %r' % (cls.tname, f_), getattr(node, 'lineno', 0))
+        return NamedTupleV(cls, [vals[f_] for f_ in cls.fields])
+
+    def p_namedtuple(self, a, k, n):
+        if len(a) < 2 or not isinstance(a[0], Const):
+            raise Undecided('namedtuple with a symbolic name')
+        spec = a[1]
+        if isinstance(spec, Const) and isinstance(spec.v, str):
+            fields = spec.v.replace(',', ' ').split()
+        else:
+            fields = [x.v for x in self.iterate(spec, n) if isinstance(x, Const)]
+            if len(fields) != len(self.iterate(spec, n)):
+                raise Undecided('namedtuple with symbolic field names')
+        defaults = self.iterate(k['defaults'], n) if 'defaults' in k and not (isinstance(k['defaults'], Const) and k['defaults'].v is None) else []
+        return NTClassV(a[0].v, fields, defaults)
+
     def _is_package_class(self, name):
         return any(name in m_.classes for m_ in self.repo.modules.values())
 
@@ -2168,6 +2273,8 @@ class Interp:
             return TypeV(type(v.v).__name__)
         if isinstance(v, (ListV,)):
             return TypeV('list')
+        if isinstance(v, NamedTupleV):
+            return v.cls
         if isinstance(v, TupleV):
             return TypeV('tuple')
         if isinstance(v, SymStr):
